@@ -26,6 +26,9 @@ RUNS = [
     # cannot be spawned): it is not a completed run, so everything recorded must stay as it was
     # (only for max_retained_runs >= 2, see DESIGN observation O1)
     {"name": "abort-unspawnable-command", "args": ["-c", "broken", "-t", "a"], "pairs": [], "aborts": True},
+    # a run whose only fault is an undefined command under --fail-on-undefined (target a has no `test`):
+    # it completes with failed=true, and that is what must be recorded
+    {"name": "undefined-with-flag", "args": ["-c", "test", "-t", "a", "--fail-on-undefined"], "pairs": []},
     # not a run at all: other subcommands that work on the same output directory; what the last
     # completed run recorded must be addressed exactly as before
     {"name": "checkpoint-delete-then-update", "noop": [["checkpoint", "delete"], ["checkpoint", "update"]], "pairs": []},
